@@ -130,9 +130,15 @@ def getattr_lib(M, interp, obj, name, node):
     if isinstance(obj, PathVal):
         if name in ('open', 'exists', 'is_file', 'read_text'):
             return ModelMethod(obj, name)
+        if name in ('name', 'parent', 'suffix', 'stem', 'parts', 'resolve', 'write_text', 'mkdir', 'joinpath', 'with_suffix', 'is_dir', 'read_bytes', 'glob'):
+            raise AnalysisError(f'Path.{name} not modelled', node)
+        raise AbsRaise(ExcVal('AttributeError', (f"'PosixPath' object has no attribute '{name}'",)), node)
     if isinstance(obj, StringIOVal):
         if name in ('getvalue', 'read'):
             return ModelMethod(obj, name)
+        if name in ('readline', 'readlines', 'seek', 'tell', 'write', 'close', 'closed', 'truncate', 'writelines'):
+            raise AnalysisError(f'StringIO.{name} not modelled', node)
+        raise AbsRaise(ExcVal('AttributeError', (f"'_io.StringIO' object has no attribute '{name}'",)), node)
     if isinstance(obj, IndexSet):
         raise AnalysisError('attribute of integer index set not modelled', node)
     h = getattr(obj, 'abs_getattr', None)
@@ -192,7 +198,12 @@ def vec_getattr(M, interp, v, name, node):
             return Vec.fresh([El(e.d, False) for e in v.els()], kind='nd', dtype=v.dtype, unit=v.unit)
         raise AbsRaise(ExcVal('AttributeError', (f"'{_tname(v)}' object has no attribute 'values'",)), node)
     if name == 'index' and v.kind == 'series':
+        if v.index is None:
+            return Vec.fresh([El(X.num(i), False) for i in range(len(v))], kind='index', dtype='i8')
         return v.index
+    if name in ('iloc', 'loc') and v.kind == 'series':
+        from .models_xr import SeriesILoc, SeriesLoc
+        return SeriesILoc(v) if name == 'iloc' else SeriesLoc(v)
     if name == 'dt':
         if v.kind == 'series' and v.dtype == 'M8':
             return DtAccessor(v)
@@ -1261,6 +1272,30 @@ def register(M):
 
     from . import models_pd
     models_pd.register(M, dict(ext=ext, meth=meth, kwarg=kwarg, as_vec=as_vec, astype=astype, to_array=to_array))
+
+
+def as_series_values(interp, v, nrows, node):
+    """value assigned to a DataFrame column -> column Vec (a masked array becomes NaN where masked, like pandas)"""
+    if isinstance(v, Vec):
+        els = []
+        for e in v.els():
+            if e.m is True:
+                els.append(El(X.NAN, False))
+            elif e.m is False:
+                els.append(El(e.d, False))
+            else:
+                raise AnalysisError('DataFrame column from an array with a data-dependent mask', node)
+        return Vec.fresh(els, kind='series', dtype=v.dtype, unit=v.unit)
+    if isinstance(v, (list, tuple)):
+        return as_series_values(interp, interp.models.to_array(interp, v, node), nrows, node)
+    if v is None:
+        if nrows is None:
+            raise AbsRaise(ExcVal('ValueError', ('cannot set a frame with no defined index and a scalar',)), node)
+        return Vec.fresh([El(NONE_EL, False)] * nrows, kind='series', dtype='O')
+    o = as_operand(v)
+    if o is not None and nrows is not None:
+        return Vec.fresh([El(o[1], False)] * nrows, kind='series', dtype='f8')
+    raise AnalysisError(f'DataFrame column from {type(v).__name__} not modelled', node)
 
 
 class IsoCal:
